@@ -384,8 +384,11 @@ func c05Restart(c *core.Ctx) {
 		}
 		found = true
 		f := (&core.Walk{
-			Stop:   func(x ssa.Instruction) bool { return x == ssa.Instruction(glpb) },
-			Target: func(x ssa.Instruction) bool { _, isSel := x.(*ssa.Select); return isSel || core.IsCallTo(x, "(*sync.EVMDriver).handleNewBlock") },
+			Stop: func(x ssa.Instruction) bool { return x == ssa.Instruction(glpb) },
+			Target: func(x ssa.Instruction) bool {
+				_, isSel := x.(*ssa.Select)
+				return isSel || core.IsCallTo(x, "(*sync.EVMDriver).handleNewBlock")
+			},
 		}).From(core.After(i), nil)
 		c.Decide(f == nil, rule, "sync.(*EVMDriver).Sync#reset-after-reorg", i.Pos(), "after handleReorg no block is handled before the last processed block is re-read and a new download started")
 		// the reorg value is the one received from the subscription
@@ -692,8 +695,8 @@ func c05Bootstrap(c *core.Ctx) {
 func init() {
 	_ = types.Typ
 	register(&Property{
-		ID:    "C05",
-		Level: "other",
+		ID:          "C05",
+		Level:       "other",
 		Explanation: "Decides the structural necessary conditions of exactly-once, in-order delivery on every path of the downloader and driver code: C05-conflate — a nil result of the range fetch (which Download treats as 'no events' and moves its cursor past) is returned only under cancellation (known finding: the max-hash-mismatch-retries return); C05-group — a block is created for a log only after the header fetched for that log's number had the log's block hash, with fields from that log/header, and removed / foreign-topic logs are dropped before grouping; C05-retry — the driver leaves handleNewBlock only after a successful ProcessBlock, a cancellation or ErrInconsistentState, so an ordinary error loops back to the same block (boolean-flag loops are handled path-sensitively); C05-restart — Sync starts the download at GetLastProcessedBlock()+1 of a successful call and re-reads it after every reorg; C05-cursor — the lower bound of every range fetch in EVMDownloader.Download is the loop-carried cursor (start parameter, or previous upper bound / last delivered block / finalized clamp + 1), never a freshly observed tip. The range arithmetic (chunk size × finality × tip movement covering every block exactly once) is value-level and is not decided. Added after the sub-agent rounds: C05-lastblock (the resume point is the greatest recorded block), C05-bootstrap (a fresh store is primed with the block before the configured first block, with that block's hash, only when behind it), C05-watch (each downloader is built with the literal list of its contract addresses and the log filter carries it). Added after round 7: C05-claim-once (shared with C20-error), C05-gercursor (shared with C16-cursor), C05-feed (block position from the log index, shared with C11-feed), and a failed appender is always retried for the same log.",
 		Rules: []Rule{
 			{ID: "C05-claim-once", Floor: 6, Run: shared("C05-claim-once", c20Error), Text: "(shared with C20-error) a claim is appended to the block only after its fallible calldata lookup succeeded (a retried appender would otherwise deliver it twice)"},
@@ -718,9 +721,9 @@ func init() {
 func watchListRule(c *core.Ctx, rule string, only map[string]bool) {
 	sx := core.NewSymx()
 	want := map[string][]string{
-		"bridgesync.newBridgeSync":     {"bridge"},
-		"l1infotreesync.New":           {"globalExitRoot", "rollupManager"},
-		"lastgersync.newDownloaderPP":  {"l2GERAddr"},
+		"bridgesync.newBridgeSync":    {"bridge"},
+		"l1infotreesync.New":          {"globalExitRoot", "rollupManager"},
+		"lastgersync.newDownloaderPP": {"l2GERAddr"},
 	}
 	n := 0
 	for _, cs := range c.AllCallsTo("sync.NewEVMDownloader", "sync.NewEVMDownloaderImplementation") {
